@@ -10,3 +10,4 @@ INVARIANT ContextExact
 INVARIANT RestartClosesPrevious
 INVARIANT OpenConsistent
 INVARIANT NeverOwnContext
+INVARIANT ActiveIsRun
